@@ -25,6 +25,9 @@ func Make[T any](ch chan T) chan T {
 // MakeCap is Make with an explicit model capacity (used for EventBufsiz).
 func MakeCap[T any](ch chan T, capacity int) chan T {
 	if s := current; s != nil && !s.aborting {
+		if s.cfg.Bufsiz > 0 {
+			capacity = s.cfg.Bufsiz // the scenario's model of EventBufsiz
+		}
 		s.register(chanPtr(ch), capacity, ".buf")
 	}
 	return ch
